@@ -64,7 +64,11 @@ func verifArchPayload(o scen.Options) {
 			v.Assert(e.Uname == w.Owner && e.Gname == w.Group, "arch-file-owner-group")
 		case 'd', 'i':
 			v.Assert(e.Name == name+"/" && e.Type == '5', "arch-dir-name-type")
-			v.Assert(e.Mode == scen.UnixMode(w.Mode), "arch-dir-mode")
+			if w.FromTree {
+				v.Assert(e.Mode == scen.UnixMode(w.Mode), "arch-dir-mode-of-tree-directory")
+			} else {
+				v.Assert(e.Mode == scen.UnixMode(w.Mode), "arch-dir-mode")
+			}
 			v.Assert(e.Uname == w.Owner && e.Gname == w.Group, "arch-dir-owner-group")
 		case 'l':
 			v.Assert(e.Name == name && e.Type == '2', "arch-symlink-name-type")
@@ -73,3 +77,6 @@ func verifArchPayload(o scen.Options) {
 	}
 	v.Assert(es[len(wants)].Name == ".PKGINFO" && es[len(wants)+1].Name == ".MTREE", "arch-metadata-members")
 }
+
+// Verif_C01_C_ArchSources_Thorough: a tree, a directory source expanded by the glob model, an on-disk symlink.
+func Verif_C01_C_ArchSources_Thorough() { verifArchPayload(scen.Options{Second: -4}) }
